@@ -121,9 +121,11 @@ def kruskal_nvecs(E, shape, R, n, r, flipsign):
     judge(E, K, O.den(K), n, r, flipsign, "ktensor.nvecs")
 
 
-@ob("C14", params=[dict(shape=s, core=c, n=n, r=r, flipsign=(s[n] * r <= 4 and r == 2), _tier=t) for s, c, t in [((2, 3), (2, 2), "quick"), ((4, 2), (2, 1), "quick"), ((3, 2, 2), (2, 2, 1), "thorough")]
+@ob("C14", params=[dict(shape=s, core=c, n=n, r=r, flipsign=(s[n] * r <= 4 and r == 2), _tier=t) for s, c, t in [((2, 3), (2, 2), "quick"), ((4, 2), (2, 1), "quick"), ((3, 2, 2), (2, 2, 1), "thorough"),
+                                                                                                                          ((2, 2, 2), (2, 1, 2), "quick")]
                    for n in range(len(s)) for r in range(1, s[n] + 1)], max_paths=20000, validate=False, env_stub=True,
-    bounds="Tucker tensor with symbolic core and factors; every n and r; contract stub")
+    bounds="Tucker tensor with symbolic core and factors (incl. a 3-way core with more than one index on both sides of an interior mode, "
+           "where the column order of the two unfoldings matters); every n and r; contract stub")
 def tucker_nvecs(E, shape, core, n, r, flipsign):
     """ttensor.nvecs: the matrix computed through the core is the Gram matrix of the denoted array"""
     T = O.tucker(E, "t", shape, core)
